@@ -28,6 +28,9 @@ use std::sync::{Arc, Mutex};
 pub struct C06;
 pub static P: C06 = C06;
 
+/// committed states of a serial re-execution, by (backend, prefill, calls, section order)
+static STATES: Mutex<BTreeMap<String, Vec<BTreeMap<String, String>>>> = Mutex::new(BTreeMap::new());
+
 fn manifest_json(index: &Index) -> Value {
   let m = index.manifest();
   json!(m.segments.iter().map(|s| json!([s.id, format!("{:?}", s.deleted_docs)])).collect::<Vec<_>>())
@@ -277,8 +280,11 @@ impl Prop for C06 {
     // ---- committed states: serial re-execution (real code) of the sections in enter order ----
     let order = sched::enter_order(tr, n);
     let sec_calls: Vec<Vec<Value>> = scheduled.iter().map(|cs| cs.iter().filter(|c| is_section_op(c)).cloned().collect()).collect();
+    // the committed states depend only on (backend, prefill, calls, section order): memoised
+    let memo_key = json!([mem, case["prefill"], case["threads"], order]).to_string();
+    let cached = STATES.lock().unwrap().get(&memo_key).cloned();
     let dir2 = scratch();
-    let states = (|| -> Result<Vec<BTreeMap<String, String>>, String> {
+    let states = cached.map(Ok).unwrap_or_else(|| -> Result<Vec<BTreeMap<String, String>>, String> {
       let index2 = idx::create(dir2.path(), &schema_json(), mem)?;
       prefill(&index2, case)?;
       let mut states = vec![contents(&index2)?];
@@ -302,9 +308,12 @@ impl Prop for C06 {
         }
       }
       Ok(states)
-    })();
+    });
     let states = match states {
-      Ok(st) => st,
+      Ok(st) => {
+        STATES.lock().unwrap().insert(memo_key, st.clone());
+        st
+      }
       Err(e) => {
         s.case(case, false);
         s.fail("serial.replay-failed", "serial re-execution failed", case, json!(e));
